@@ -143,6 +143,19 @@ theorem arvo_tight (b : Box3 α) (m : M44 α) (hb : ¬ Box3.Inverted b) (c' : Bo
     · rw [← e5]; exact g5.2.2.1
     · rw [← e6]; exact g6.2.2.2
 
+/-- an affine function that is `≥ 0` at the eight corners is `≥ 0` on the whole box (its minimum over the box is
+attained at a corner) -/
+theorem affCoord_nonneg_of_corners (m3 m0 m1 m2 : α) (b : Box3 α)
+    (h : ∀ c ∈ corners b, 0 ≤ affCoord m3 m0 m1 m2 c) (p : V3 α) (hp : Box3.Mem p b) : 0 ≤ affCoord m3 m0 m1 m2 p := by
+  obtain ⟨c, hc, e⟩ := arvoAxis_min_attained m3 m0 m1 m2 b
+  exact le_trans (e ▸ h c hc) (arvoAxis_contains m3 m0 m1 m2 b p hp).1
+
+/-- ... and one that is `> 0` at the eight corners is `> 0` on the whole box -/
+theorem affCoord_pos_of_corners (m3 m0 m1 m2 : α) (b : Box3 α)
+    (h : ∀ c ∈ corners b, 0 < affCoord m3 m0 m1 m2 c) (p : V3 α) (hp : Box3.Mem p b) : 0 < affCoord m3 m0 m1 m2 p := by
+  obtain ⟨c, hc, e⟩ := arvoAxis_min_attained m3 m0 m1 m2 b
+  exact lt_of_lt_of_le (e ▸ h c hc) (arvoAxis_contains m3 m0 m1 m2 b p hp).1
+
 theorem Box3.eq_of_subset_subset (a c : Box3 α) (ha : ¬ Box3.Inverted a) (hc : ¬ Box3.Inverted c)
     (h1 : Box3.Subset a c) (h2 : Box3.Subset c a) : a = c := by
   rw [Box3.subset_iff _ _ ha] at h1
